@@ -39,8 +39,9 @@ TRUSTED_BASE = [
     "tools/gen/c05_tls.py + gen/TlsDispatch.v (ast readers) pin enums, dictionaries, default lists, the dispatch table and "
     "the raise-site skeleton of tls.py; harness/props/c05_tlsmsg.py reads the Context's private attributes and wraps "
     "tls.decode_public_key / tls.verify_certificate / Context._handle_reassembled_message to record oracle answers",
-    "frame-layer model (ConnRecv.v) still takes the TLS engine's answer in handshake states as an input (tls_oracle); "
-    "TlsRecv.crypto_deliver is proved separately and not yet substituted into ConnRecv.h_crypto",
+    "frame-layer model (ConnRecv.v) calls TlsRecv.crypto_deliver below the CRYPTO handler; in the frames tie the oracle records "
+    "of the TLS layer are recorded from the real connection's tls.Context (c05_tlsmsg.Recorder; the transport-parameter verdict "
+    "is the QuicConnectionError of the real _alpn_handler)",
 ]
 ASSUMPTIONS = [
     "tls_handle_message_total: wf_cfg (every advertised signature algorithm is Ed25519, Ed448 or a key of SIGNATURE_ALGORITHMS: "
@@ -49,8 +50,8 @@ ASSUMPTIONS = [
     "a Context that raised an Alert is dead: the connection closes and never feeds it again (receive_datagram returns on _close_pending)",
     "local configuration is not network input: certificate chain / handshake extensions fit the 4096-byte crypto buffers, the local "
     "private key can sign with the negotiated algorithm, application callbacks (session ticket fetcher / handler) return",
-    "receive_total_frames: the TLS oracle does not answer with an escaping exception (to_kind <> 3) -- "
-    "refuted for the pinned tls.py by the implementation oracle (findings T1-T4), holds for the patched tree on every generated message",
+    "receive_total_tls: tls_ok (c_tls st) = wf_cfg + wf0 of the connection's tls.Context (the hypotheses of tls_handle_message_total; "
+    "re-established by the theorem itself for the state after the packet); no hypothesis about the TLS engine's answers is left",
     "AEAD/header protection are outside: the model starts from the decrypted payload (C02)",
 ]
 
@@ -615,7 +616,7 @@ def _recv_tokens(r):
     return t
 
 
-def snapshot_tokens(conn, epoch, dcid, tls_oracle):
+def snapshot_tokens(conn, epoch, dcid):
     from aioquic import tls
     streams = []
     for sid, s in conn._streams.items():
@@ -632,7 +633,7 @@ def snapshot_tokens(conn, epoch, dcid, tls_oracle):
          conn._local_max_stream_data_bidi_remote, conn._local_max_stream_data_uni,
          -1 if mdf is None else mdf, conn._host_cid_seq, ctx, conn._remote_active_connection_id_limit,
          0 if ps is None else ps, conn._peer_retire_prior_to, len(conn._retire_connection_ids),
-         conn._local_active_connection_id_limit, conn.tls.state.value] + list(tls_oracle)
+         conn._local_active_connection_id_limit]
 
     def lst(xs):
         xs = list(xs)
@@ -643,7 +644,6 @@ def snapshot_tokens(conn, epoch, dcid, tls_oracle):
     t += lst(sorted(conn._peer_cid_sequence_numbers))
     t += lst(int.from_bytes(k, "big") for k in conn._local_challenges.keys())
     t += lst(sorted(conn._streams_finished))
-    t += lst(conn.tls._receive_buffer)
     t += lst(c.sequence_number for c in conn._host_cids
              if not c.was_sent and c.sequence_number > getattr(conn, "_host_cid_seq_sent", -1))
     t += [len(streams)]
@@ -651,6 +651,8 @@ def snapshot_tokens(conn, epoch, dcid, tls_oracle):
         t += s
     for ep in (tls.Epoch.INITIAL, tls.Epoch.HANDSHAKE, tls.Epoch.ONE_RTT):
         t += _recv_tokens(conn._crypto_streams[ep].receiver)
+    # self.tls: configuration + state tokens of the TLS message-layer model (TlsRecv.rd_cfg_ctx)
+    t += c05_tlsmsg.snapshot(conn.tls)
     return t
 
 
@@ -680,13 +682,21 @@ def frames_observe(case):
     if "dcid_index" in opts:
         cids = [c.cid for c in conn._host_cids]
         dcid = cids[opts["dcid_index"] % len(cids)]
-    # TLS oracle for handshake states: taken from the real run afterwards (documented input of the model)
+    # Oracle answers of the TLS layer (cryptography / X.509 / callbacks): recorded per handle_message call and per
+    # dispatched message from the real run (c05_tlsmsg.Recorder), documented inputs of the model
     pre = None
+    rec = None
     if conn._close_event is None and not conn._close_pending:
         pre = [patched, EPOCH_NUM[epoch], 0, int(bool(opts.get("reserved")))]
-        snap = snapshot_tokens(conn, EPOCH_NUM[epoch], dcid, [0, 0, 0])
+        snap = snapshot_tokens(conn, EPOCH_NUM[epoch], dcid)
+        from aioquic import tls as _tls
+        rec = c05_tlsmsg.Recorder(_tls, conn.tls, wrap_callbacks=True).install()
     nraised0 = len(subj.raised)
-    lab.send_packet(epoch, payload, opts)
+    try:
+        lab.send_packet(epoch, payload, opts)
+    finally:
+        if rec is not None:
+            rec.uninstall()
     new_raised = subj.raised[nraised0:]
     recv = [c for c in new_raised if c.name == "receive_datagram"]
     evs = [e for e in subj.qlog_events() if e["name"] == "transport:packet_received"]
@@ -694,29 +704,24 @@ def frames_observe(case):
     # outcome from public observables: exception class, else the ConnectionTerminated event
     if recv:
         exp = [3, EXN.get(recv[0].exc_type, 9), 0, nlog]
-        tls_or = [3, EXN.get(recv[0].exc_type, 9), 0]
     else:
         lab.settle(max_time=30.0)
         term = subj.terminated
         closes = lab.sent_closes()
         if term is None or (not closes and term.reason_phrase == "Idle timeout" and int(term.error_code) == 1):
             exp = [0, 0, 0, nlog]
-            tls_or = [0, 0, 0]
         else:
             ft = -1 if term.frame_type is None else int(term.frame_type)
             exp = [1 if closes else 2, int(term.error_code), ft, nlog]
-            code = int(term.error_code)
-            tls_or = [1, code - 0x100, 0] if (closes and 0x100 <= code <= 0x1FF) else ([2, code, ft] if closes else [0, 0, 0])
     later = [c for c in subj.raised[nraised0:] if c.name != "receive_datagram"]
     tokens = None
     if pre is not None and len(snap) > 60000:
         pre = None          # a huge reassembly buffer (far-ahead CRYPTO data in a prefix packet): not run through the model
     if pre is not None:
-        hs_state = conn.tls.state.value not in (7, 12) if hasattr(conn, "tls") else False
-        snap2 = list(snap)
-        if case.get("tls_oracle"):
-            snap2[16:19] = tls_or
-        tokens = [0] + pre + snap2 + [len(payload)] + list(payload)
+        orcs = [len(rec.calls)]
+        for records in rec.calls:
+            orcs += c05_tlsmsg.orc_tokens(records)
+        tokens = [0] + pre + snap + orcs + [len(payload)] + list(payload)
     res = (tokens, exp, [(c.name, c.exc_type, exc_site(c.exc)) for c in later])
     if len(_CACHE) > 4000:
         _CACHE.clear()
@@ -844,7 +849,6 @@ def gen_frame_cases(rng, n):
             g = Gen(rng)
             pre = [g.frame(rng.choice([0x08, 0x0A, 0x0B, 0x0E, 0x0F, 0x04, 0x18, 0x19, 0x1A])) for _ in range(rng.randint(1, 3))]
             c["ops"].append(["pkt", "1rtt", b"".join(pre).hex()])
-        c["tls_oracle"] = 1
         cases.append(c)
     # directed part: state-dependent checks (final size, flow control, stream limits, connection IDs)
     g = Gen(rng)
@@ -863,7 +867,7 @@ def gen_frame_cases(rng, n):
         peer_ids = [0, 4, 8, 2, 6, 400, 512, 516] if side == "server" else [1, 5, 9, 3, 7, 401, 513, 517]
         own_ids = [1, 5, 3] if side == "server" else [0, 4, 2]
         c = {"spec": spec(side, rng.choice(["connected", "connected", "keyupdated"]), 100 + rng.randrange(8)), "ops": [],
-             "epoch": "1rtt", "opts": {}, "tls_oracle": 1}
+             "epoch": "1rtt", "opts": {}}
         x = rng.random()
         if x < 0.6:
             sid = rng.choice(peer_ids + peer_ids + own_ids)
